@@ -246,7 +246,7 @@ class NDNApp:
         # The pending entry outlives this call: keep copies, not views into buffers the caller may re-use
         final_name = [bytes(c) for c in final_name]
         future = aio.get_running_loop().create_future()
-        if Component.get_type(final_name[-1]) == Component.TYPE_IMPLICIT_SHA256:
+        if final_name and Component.get_type(final_name[-1]) == Component.TYPE_IMPLICIT_SHA256:
             node_name = final_name[:-1]
             implicit_sha256 = Component.get_value(final_name[-1])
         else:
